@@ -2,7 +2,7 @@
 import os
 
 from . import core
-from .rules import stdio, cert, mark, exact, optstore, inval, idx, atomic, own, tokens, idxclass, copy, pair, structfree, buf, div, counter, sentinel, appendinit, verdict, basismap, zerotol, escape, lenclass, djsym, ndet, useb4check, norms, opencheck, shell, esolver, errlost, rescan, certdep, neverset, fmt, defaults, scratch, fullscan, slotleak, floatidx, sensemap, trunc, vtypezero, allockind, intdiv, strscan, localfield, rawidx, argcap, staleptr, condalloc, lpstate, vstattype, alphabet, outleak, fieldleak
+from .rules import stdio, cert, mark, exact, optstore, inval, idx, atomic, own, tokens, idxclass, copy, pair, structfree, buf, div, counter, sentinel, appendinit, verdict, basismap, zerotol, escape, lenclass, djsym, ndet, useb4check, norms, opencheck, shell, esolver, errlost, rescan, certdep, neverset, fmt, defaults, scratch, fullscan, slotleak, floatidx, sensemap, trunc, vtypezero, allockind, intdiv, strscan, localfield, rawidx, argcap, staleptr, condalloc, lpstate, vstattype, alphabet, outleak, fieldleak, lenm1
 from .effects import Effects
 
 FIX = os.path.join(os.path.dirname(os.path.abspath(__file__)), "fixtures")
@@ -449,6 +449,7 @@ PROPS = {
                   lambda prog, tier: strscan.run(prog),
                   lambda prog, tier: rawidx.run(prog),
                   lambda prog, tier: idx.run(prog),
+                  lambda prog, tier: lenm1.run(prog),
                   lambda prog, tier: fmt.run(prog, scope=lambda f, _r=set(prog.reachable([prog.require_fn(r).key for r in
                                                                                           ("mpq_QSread_prob", "mpq_QSget_prob", "mpq_QSread_basis", "mpq_QSread_and_load_basis")])): f.key in _r, floor=200)],
         "technique": "census and classification of buffer-writing calls in the reader call-graph closures (destination array sizes from the "
@@ -539,7 +540,7 @@ PROPS = {
                   lambda prog, tier: argcap.run(prog, floor=40),
                   lambda prog, tier: staleptr.run(prog, shared_eff(prog)),
                   lambda prog, tier: condalloc.run(prog),
-                  lambda prog, tier: lpstate.run(prog), lambda prog, tier: lpstate.run_internal(prog),
+                  lambda prog, tier: lpstate.run(prog), lambda prog, tier: lpstate.run_internal(prog), lambda prog, tier: lenm1.run(prog),
                   lambda prog, tier: neverset.run(prog),
                   lambda prog, tier: fmt.run(prog),
                   lambda prog, tier: floatidx.run(prog),
@@ -704,7 +705,8 @@ _ADD = {
                            "(R-ERRLOST) the error code of a failing callee is examined before it is overwritten. (R-RAWIDX) in the raw-to-LP "
                            "conversion no array of the converted LP is subscripted with a raw index and vice versa (index-space typing per loop). "
                            "(R-IDX) an index obtained from a name of the input (symbol-table lookup, directly or through ILLlib_colindex / rowindex) "
-                           "subscripts a basis or problem array only after a test that excludes -1 / negatives (the basis reader).",
+                           "subscripts a basis or problem array only after a test that excludes -1 / negatives (the basis reader). (R-LENM1) the "
+                           "last-character idiom s[strlen - 1] is evaluated only where the length is known positive.",
             "level_text": " (R-ALLOCKIND) arrays of exact numbers are created by the number-array allocator, never by a raw realloc (an MPS "
                           "file with an SOS section crashed the rational reader on the pinned tree).",
             "technique": "; census of printf-like calls (set computed from the declarations) with literal / forwarded-format discharge; "
